@@ -222,10 +222,12 @@ def refusal_tables(v):
     def ab(e, kind): return e.get('abort') and e['abort'][0] == kind
     TA = [
         ('action-name-serialisation', 'D(unit enum serialises)', lambda e: is_unit_enum_serialisation(e)),
-        ('zero-amount-pull', 'D(validate: size >= 1)', lambda e: ab(e, 'unwrap') and 'transfer amount must be > 0' in e['key']),
+        ('zero-amount-pull', 'D(validate: size >= 1)', lambda e: is_generic_err_unwrap(e)),
         ('increment-zero', 'D(K)', lambda e: ab(e, 'assert') and 'size_increment' in e['key']),
         ('precision-power', 'D(K: precision <= 18)', lambda e: (ab(e, 'unwrap') or ab(e, 'assert')) and ('pow' in e['key'] or '^' in e['key'] or 'checked_mul' in e['key'])),
-        ('price-scale-overflow', 'I', lambda e: ab(e, 'unwrap') and 'TotalOverflow' in e['key']),
+        # unwrap of an explicit Err(..) built from the failed price x 10^precision product (whatever error value it carries)
+        ('price-scale-overflow', 'I', lambda e: ab(e, 'unwrap') and isinstance(e['abort'][1], tuple) and e['abort'][1][0] == 'adt' and e['abort'][1][2] == 'Err'
+             and any(f[0] == 'is' and f[2] == 'None' and f[1][0] == 'rcall' and f[1][1] == 'checked_mul' and 'pow' in repr(f[1]) for f in e.get('common', ()))),
         ('to_u128-of-whole-total', 'D(L-int)', lambda e: ab(e, 'unwrap') and 'to_u128' in e['key']),
         ('funds-sum-overflow', 'I', lambda e: ab(e, 'assert') and 'Add' in repr(e['abort'])) ,
         ('quote-plus-fee-overflow', 'I', lambda e: ab(e, 'uint_Add')),
